@@ -203,10 +203,93 @@ def collect_cdecls():
     return out
 
 
+def class_methods(relpath, cname):
+    tree = ast.parse(open(os.path.join(REPO, relpath)).read())
+    cls = [n for n in tree.body if isinstance(n, ast.ClassDef) and n.name == cname]
+    need(len(cls) == 1, f"class {cname} not found in {relpath}")
+    return {f.name: f for f in cls[0].body if isinstance(f, ast.FunctionDef)}
+
+
+def single_return_call(fn):
+    """the call of a method whose body is (docstring +) one `return <call>`, else None"""
+    body = [st for st in fn.body
+            if not (isinstance(st, ast.Expr) and isinstance(st.value, ast.Constant))]
+    if len(body) == 1 and isinstance(body[0], ast.Return) and isinstance(body[0].value, ast.Call):
+        return body[0].value
+    return None
+
+
+def call_record(name, call):
+    callee = dotted(call.func)
+    need(callee is not None, f"{name}: computed callee {ast.unparse(call.func)}")
+    args = [ast.unparse(a) for a in call.args]
+    args += [f"{k.arg}={ast.unparse(k.value)}" for k in call.keywords]
+    return (name, callee, args)
+
+
+def collect_delegates():
+    """round 4: every method of InteractingNetworks (outside SKIP) that only returns one call of
+    another method (`self.…` / `InteractingNetworks.…`) — the pure delegates — and the two
+    Network methods the betweenness delegates go through; plus the statements of
+    `Network.nsi_betweenness` / `_nsi_betweenness` that the model `Cross.srcMask` /
+    `crossBetweenness` mirrors"""
+    out = []
+    meths = class_methods("src/pyunicorn/core/interacting_networks.py", "InteractingNetworks")
+    for name, fn in meths.items():
+        if name in SKIP:
+            continue
+        call = single_return_call(fn)
+        if call is None:
+            continue
+        callee = dotted(call.func)
+        if callee is None or callee.split(".")[0] not in ("self", "InteractingNetworks"):
+            continue
+        out.append(call_record(name, call))
+    for nm in ("cross_betweenness", "internal_betweenness", "nsi_cross_betweenness"):
+        need(any(d[0] == nm for d in out), f"{nm} is no longer a pure delegate")
+    net = class_methods("src/pyunicorn/core/network.py", "Network")
+    for nm in ("interregional_betweenness", "nsi_interregional_betweenness"):
+        need(nm in net, f"Network.{nm} not found")
+        call = single_return_call(net[nm])
+        need(call is not None, f"Network.{nm} is no longer a pure delegate")
+        out.append(call_record("Network." + nm, call))
+    facts = []
+    need("nsi_betweenness" in net and "_nsi_betweenness" in net, "Network.nsi_betweenness not found")
+    fn = net["nsi_betweenness"]
+    sig = [a.arg for a in fn.args.args] + \
+        [f"default:{ast.unparse(d)}" for d in fn.args.defaults]
+    facts.append(("nsi_betweenness.signature", ", ".join(sig)))
+    for st in ast.walk(fn):
+        if isinstance(st, ast.Assign) and len(st.targets) == 1 and \
+                isinstance(st.targets[0], ast.Subscript) and dotted(st.targets[0].value) == "is_source":
+            facts.append(("nsi_betweenness.is_source[" + ast.unparse(st.targets[0].slice) + "]",
+                          ast.unparse(st.value)))
+        if isinstance(st, ast.Assign) and len(st.targets) == 1 and dotted(st.targets[0]) in (
+                "is_source", "targets"):
+            facts.append(("nsi_betweenness." + dotted(st.targets[0]), ast.unparse(st.value)))
+        if isinstance(st, ast.Return) and st.value is not None:
+            facts.append(("nsi_betweenness.return", ast.unparse(st.value)))
+    fn = net["_nsi_betweenness"]
+    for st in ast.walk(fn):
+        if isinstance(st, ast.Assign) and len(st.targets) == 1 and dotted(st.targets[0]) in (
+                "w", "k", "flat_neighbors", "links", "worker"):
+            facts.append(("_nsi_betweenness." + dotted(st.targets[0]), ast.unparse(st.value)))
+        if isinstance(st, ast.Assign) and len(st.targets) == 1 and dotted(st.targets[0]) == "betw_w" \
+                and "pool" not in ast.unparse(st.value):
+            facts.append(("_nsi_betweenness.betw_w", ast.unparse(st.value)))
+        if isinstance(st, ast.Assert) and "n_links" in ast.unparse(st.test):
+            facts.append(("_nsi_betweenness.assert", ast.unparse(st.test)))
+        if isinstance(st, ast.Return) and st.value is not None:
+            facts.append(("_nsi_betweenness.return", ast.unparse(st.value)))
+    need(len(facts) >= 10, f"only {len(facts)} statements of nsi_betweenness read")
+    return out, facts
+
+
 def main():
     resolve = type_table()
     casts, nmeth = collect_casts(resolve)
     cdecls = collect_cdecls()
+    delegates, facts = collect_delegates()
     L = ["/- generated by translate/gen_C11.py from the current source tree — do not edit -/",
          "namespace Pyunicorn.Generated.StructC11", "",
          "structure Cast where",
@@ -228,6 +311,18 @@ def main():
           "def cdecls : List CDecl := ["]
     L.append(",\n".join(f"  ⟨{lean_str(k)}, {lean_str(t)}, {lean_str(n)}⟩" for k, t, n in cdecls)
              + "]")
+    L += ["", "structure Delegate where", "  func : String", "  callee : String",
+          "  args : List String", "deriving DecidableEq, Repr", "",
+          "/-- round 4: every pure delegate (`return <one call>`) among the scanned methods, and the",
+          "two `Network` methods the betweenness delegates pass through -/",
+          "def delegates : List Delegate := ["]
+    L.append(",\n".join(
+        f"  ⟨{lean_str(f)}, {lean_str(c)}, [{', '.join(lean_str(a) for a in args)}]⟩"
+        for f, c, args in delegates) + "]")
+    L += ["", "/-- round 4: the statements of `Network.nsi_betweenness` / `_nsi_betweenness` mirrored by",
+          "`Cross.srcMask`, `Cross.crossBetweenness` and `NetBetw.nsiBetweenness` (source text) -/",
+          "def betwFacts : List (String × String) := ["]
+    L.append(",\n".join(f"  ({lean_str(a)}, {lean_str(b)})" for a, b in facts) + "]")
     L += ["", "end Pyunicorn.Generated.StructC11", ""]
     os.makedirs(os.path.dirname(OUT), exist_ok=True)
     tmp = OUT + ".tmp"
